@@ -307,6 +307,9 @@ func init() {
 	intrinsics["slices.SortFunc"] = sortPerm
 	intrinsics["sort.Slice"] = sortPerm
 	intrinsics["sort.SliceStable"] = sortPerm
+	intrinsics["sort.Strings"] = sortPerm
+	intrinsics["sort.Ints"] = sortPerm
+	intrinsics["slices.Sort"] = sortPerm
 }
 
 func init() {
